@@ -34,9 +34,10 @@ ShortMarker == <<36, 78>>
 Inv1 == ResultOK
 Inv2 == PrefixInv
 
-\* abstract -> real bytes: '$' is "$Net", 'N' is "BSD" (so "$N" is the real marker and a read
-\* boundary between them falls inside it); everything else is itself
-Conc(c) == IF c = 36 THEN <<36, 78, 101, 116>> ELSE IF c = 78 THEN <<66, 83, 68>> ELSE <<c>>
+\* abstract -> real bytes: 'N' is "NetBSD" (so "$N" is the real marker, a read boundary between the
+\* two symbols falls inside it, and a lone 'N' is the word without the dollar sign, which must
+\* NOT be filtered); everything else is itself
+Conc(c) == IF c = 78 THEN <<78, 101, 116, 66, 83, 68>> ELSE <<c>>
 Concrete(b) == Flatten([i \in 1..Len(b) |-> Conc(b[i])])
 ConcSched == LET RECURSIVE Go2(_, _)
                  Go2(i, p) == IF i > Len(sched) THEN <<>>
